@@ -42,8 +42,20 @@ pub fn run(ctx: &mut Ctx, replay: Option<&[String]>) {
     let n = ctx.scale(1500, 40000);
     let max_cols = ctx.scale(30, 120);
     for _ in 0..n {
-        let (h, fam) = gen_matrix(&mut rng, max_cols);
+        let (mut h, fam) = gen_matrix(&mut rng, max_cols);
+        // the property quantifies over ALL matrices: a quarter of the cases get checks of weight 1 or 0
+        let low_weight = rng.chance(1, 4);
+        if low_weight {
+            for _ in 0..rng.range(1, 2) {
+                let r = rng.below(h.num_rows());
+                h.clear_row(r);
+                if rng.chance(3, 4) {
+                    h.insert(r, rng.below(h.num_cols()));
+                }
+            }
+        }
         let (llrs, mut tags) = gen_llrs(&mut rng, &h);
+        tags.push(if low_weight { "has-check-of-weight-0-or-1" } else { "all-checks-weight>=2" });
         let limit = *rng.pick(&LIMITS);
         let limit = if limit == 50 { rng.range(4, 12) } else { limit };
         let arith = if rng.chance(1, 2) { "ms" } else { "aff" };
